@@ -5,8 +5,10 @@ import (
 	"fmt"
 	"math/rand"
 	"os"
+	"os/exec"
 	"path/filepath"
 	"strings"
+	"syscall"
 	"time"
 
 	"kv/core"
@@ -145,6 +147,12 @@ func materialise(dir string, s *cmdScenario, rng *rand.Rand) []string {
 		win = []string{"-m", "1:-1,."}
 	case "digitsNeg":
 		win = []string{"--digits", "-3"}
+	case "digitsHuge": // the extreme values the flag type admits
+		win = []string{"--digits", "2147483647"}
+	case "digitsMin":
+		win = []string{"--digits", "-2147483648"}
+	case "lastHuge":
+		win = []string{"--last", "9223372036854775807", "--days"}
 	}
 	v := []string{"-v", "CHF"}
 	switch s.Sc.Flags {
@@ -200,7 +208,7 @@ func runC14(bin, root string, id int, s *cmdScenario, seed int64) map[string]any
 
 func C14(c *core.Ctx) {
 	c.Ev.Level = "fault_enumeration"
-	c.Set("rule", "scenario = include graph (single, chain of 3 with sub-directories, diamond, self-include, 2-cycle, missing target, directory as target) x content class of one file (valid, empty, syntax error, invalid account type, unopened account, missing price, inverted accrual window, accrual through an unopened account, year-1 date, binary garbage) x its position (root / deepest leaf) x command (check, check --write, balance, balance -v, print, format, infer, transcode, portfolio returns, portfolio weights) x flag class (none, inverted window, --last negative / zero, unknown valuation commodity, valuation flag absent); enumerated by TLC from Command.tla; non-trivial = scenario with at least one fault")
+	c.Set("rule", "scenario = include graph (single, chain of 3 with sub-directories, diamond, self-include, 2-cycle, missing target, directory as target) x content class of one file (valid, empty, syntax error, invalid account type, unopened account, missing price, inverted accrual window, accrual through an unopened account, year-1 date, binary garbage) x its position (root / deepest leaf) x command (check, check --write, balance, balance -v, print, format, infer, transcode, portfolio returns, portfolio weights) x flag class (none, inverted window, --last negative / zero / MaxInt64, --digits negative / MaxInt32 / MinInt32, unknown valuation commodity, valuation flag absent); enumerated by TLC from Command.tla; non-trivial = scenario with at least one fault")
 	c.Trusted("TLC + Json module", "prlimit (address space 6 GiB, 2000 threads), 20 s timeout", "stderr classifier (panic / out of memory / diagnostic)")
 	c.MC("Command", "MC_Command.cfg", 8, 10*time.Minute)
 	c.MC("Loader", c.TierCfg("MC_Loader"), 16, 30*time.Minute)
@@ -292,6 +300,7 @@ func C14(c *core.Ctx) {
 	c.JudgeAndReport("Trace_Command", "Trace_Command.cfg", mcases, 8, nil, func(cs map[string]any) (string, string) {
 		return fmt.Sprintf("clean-mutation:%v", cs["why"]), fmt.Sprintf("knut %v on a mutated journal: %v (exit %v)\nstderr:\n%v\nstdout:\n%v\n--- journal\n%q", cs["argv"], cs["why"], cs["exit"], cs["stderr"], cs["stdout"], cs["text"])
 	})
+	c14dag(c, bin, root)
 	c.Add("evaluations", len(cases))
 	c.Add("distinct_nontrivial", nt)
 	c.Sample(map[string]any{"scenario": cases[0]["scenario"], "argv": cases[0]["argv"], "exit": cases[0]["exit"], "stderr": cases[0]["stderr"]})
@@ -320,4 +329,45 @@ func C14(c *core.Ctx) {
 			}
 			return sig, fmt.Sprintf("scenario %+v\nknut %v\nexit=%v timedOut=%v\nstderr:\n%v\nstdout:\n%v", s, cs["argv"], cs["exit"], cs["timedOut"], cs["stderr"], cs["stdout"])
 		})
+}
+
+// c14dag: an acyclic include graph in which every file includes the next one twice (17 files, about 600 bytes):
+// the loader must not need memory that is exponential in the depth.
+func c14dag(c *core.Ctx, bin, root string) {
+	dir := filepath.Join(root, "dag")
+	os.RemoveAll(dir)
+	os.MkdirAll(dir, 0o755)
+	defer os.RemoveAll(dir)
+	const depth = 16
+	files := map[string]string{}
+	for i := 0; i < depth; i++ {
+		files[fmt.Sprintf("f%d.knut", i)] = fmt.Sprintf("include \"f%d.knut\"\ninclude \"./f%d.knut\"\n", i+1, i+1)
+	}
+	files[fmt.Sprintf("f%d.knut", depth)] = "2020-01-02 \"t\"\nAssets:A Assets:B 1 CHF\n"
+	for n, t := range files {
+		os.WriteFile(filepath.Join(dir, n), []byte(t), 0o644)
+	}
+	cmd := exec.Command(bin, "check", "f0.knut")
+	cmd.Dir = dir
+	cmd.Env = append(os.Environ(), "GOMAXPROCS=4")
+	done := make(chan error, 1)
+	if err := cmd.Start(); err != nil {
+		c.Infra("include dag: %v", err)
+		return
+	}
+	go func() { done <- cmd.Wait() }()
+	select {
+	case <-done:
+	case <-time.After(120 * time.Second):
+		cmd.Process.Kill()
+		<-done
+	}
+	rss := int64(0)
+	if ru, ok := cmd.ProcessState.SysUsage().(*syscall.Rusage); ok {
+		rss = ru.Maxrss // KiB
+	}
+	c.Set("include_dag_depth16_peak_rss_mib", rss/1024)
+	if rss > 1024*1024 {
+		c.Violate("memory:include-dag-exponential", fmt.Sprintf("knut check on an acyclic include graph of %d files (%d bytes in total; each file includes the next one twice) needs %d MiB of memory: the work doubles with every level", depth+1, 600, rss/1024), files)
+	}
 }
